@@ -145,7 +145,7 @@ func TestC04(t *testing.T) {
 	defer s.Finish()
 	s.Guard(func() { Cfg() })
 	// the boundary points are forced into every shard, with a shard-specific dense polynomial
-	for _, pt := range []string{"fe", "ff", "100", "101", "0", hx.HexBig(rMinus1)} {
+	for _, pt := range forcedPoints() {
 		c04Part.EvalCase(s, c04Case{Poly: polySpec{Kind: "dense", Seed: uint64(1000*hx.Seed() + hx.Shard())}, Point: pt,
 			Label: "b", Results: []string{"plus1", "neighbour_lo", "neighbour_hi", "zero"}, Seed: uint64(hx.Shard())})
 	}
